@@ -178,6 +178,8 @@ def span_el(name, i):
     p = {'length': s['length'], 'length_units': 'km', 'loss_coef': s['loss'], 'att_in': 0.0, 'con_in': 0.25, 'con_out': 0.25}
     if s['pmd'] is not None:
         p['pmd_coef'] = s['pmd']
+    if s['variety'] == 'SLOPE':
+        p['dispersion_slope'] = 60.0
     return {'type': 'Fiber', 'type_variety': s['variety'], 'params': p, 'uid': f'span{i}:{name}'}
 
 
